@@ -136,6 +136,36 @@ def op_clidialect(d, pol, fmt):
     return '%s %s %s %s' % (enc_str(r[0]), r[1], enc_str(r[2]), r[3])
 
 
-for _n, _f in (('clidialect', op_clidialect), ('starcount', op_starcount), ('starvars', op_starvars), ('starmarker', op_starmarker), ('trsel', op_trsel), ('updpairs', op_updpairs),
+def enc_varmap(d):
+    if not d:
+        return 'ok ~'
+    return 'ok ' + ' '.join('%s=%s:%d' % (enc_str(k), '1' if v.initialize else '0', v.index) for k, v in d.items())
+
+
+def op_dictvars(js, pfx, query, names):
+    d = {}
+    rbql_engine.parse_dictionary_variables(dec_str(query), dec_str(pfx), dec_list(names), d)
+    return enc_varmap(d)
+
+
+def op_attrvars(js, pfx, query, names):
+    d = {}
+    try:
+        rbql_engine.parse_attribute_variables(dec_str(query), dec_str(pfx), dec_list(names), 'table header', d)
+    except rbql_engine.RbqlParsingError:
+        return 'err notfound'
+    return enc_varmap(d)
+
+
+def op_directvars(query, names):
+    d = {}
+    try:
+        rbql_engine.map_variables_directly(dec_str(query), dec_list(names), d)
+    except rbql_engine.RbqlIOHandlingError:
+        return 'err badname'
+    return enc_varmap(d)
+
+
+for _n, _f in (('dictvars', op_dictvars), ('attrvars', op_attrvars), ('directvars', op_directvars), ('clidialect', op_clidialect), ('starcount', op_starcount), ('starvars', op_starvars), ('starmarker', op_starmarker), ('trsel', op_trsel), ('updpairs', op_updpairs),
                ('basicvars', op_basicvars), ('arrayvars', op_arrayvars), ('selinfos', op_selinfos)):
     impl_py.register(_n, _f)
